@@ -172,7 +172,15 @@ try:
     first_case_of = {}
     for d, rc, out, model_ok in results:
         if rc not in (0, 66) or not os.path.exists(os.path.join(d, "stats.json")):
-            fails["C08 race soak shard crashed (exit %d): %s" % (rc, out[-600:].replace("\n", " | "))] = 1
+            # a Go runtime fatal error (e.g. "concurrent map read and map write") cannot be recovered by the harness
+            why = next((l.strip() for l in out.split("\n") if l.startswith("fatal error:") or l.startswith("panic:")), "exit %d" % rc)
+            frame = next((l.strip() for l in out.split("\n") if "gohlslib/v2" in l and "(" in l and "slice_race" not in l), "")
+            fails["C08 the process died during the concurrent run: %s %s   [shard seed %d; last output: %s]" % (
+                why, frame[:160], seed * 1000 + results.index((d, rc, out, model_ok)), out[-300:].replace("\n", " | "))] = 1
+            for f in os.listdir(d):
+                if f.startswith("race."):
+                    for pair, inrepo in parse_reports(open(os.path.join(d, f), errors="replace").read()):
+                        reports[(pair, inrepo)] += 1
             continue
         st = json.load(open(os.path.join(d, "stats.json")))
         cases += st["cases"]; distinct += st["distinct_cases"]
